@@ -16,7 +16,7 @@ def BOUND(tier):
 
 
 def RULE(tier):
-    return ("stateless exploration of the real Doist/DoDoer/Doer code: every doer forest shape in the tier's shape set x "
+    return ("" if tier == "quick" else sched.THOROUGH_NOTE + ". ") + ("stateless exploration of the real Doist/DoDoer/Doer code: every doer forest shape in the tier's shape set x "
             "every execution with <= %d deviations from the default answers (config, leaf kind, per-step yield/return and extend(fresh|present|[x,x]|completed sibling) / remove(self|prev|next|[b,b]|completed|absent) on the owning Doist or DoDoer(always)). Oracle: added doer entered exactly once inside extend(), first recur in the next cycle, once per cycle; present doers untouched; removed doer gets cease,exit inside remove() and no later event; self-removal keeps running; scheduler.doers equals the list model after every call. "
             "distinct_nontrivial = executions with >=1 deviation whose full event trace was not seen before." % BOUND(tier))
 
@@ -39,4 +39,4 @@ def harness(job, ch):
                    sample=dict(shape=repr(job[1]), trace=[list(map(str, e[:3])) for e in w.trace[:30]]))
 
 
-run_job, replay = standard(harness, BOUND)
+run_job, replay = standard(harness, BOUND, job_bound=sched.tier_bound)
